@@ -65,7 +65,8 @@ def cases(sh, tier):
     else:
         for m in sorted(MUTATORS):
             for side in ("copy", "orig"):
-                for kind in ("DimArray", "Axis", "Axes"):    # the statement is about DimArray.copy (Dataset.copy is documented shallow)
+                # the statement is about DimArray.copy (Dataset.copy is documented shallow); 'Grouped' = a DimArray with a flattened axis
+                for kind in ("DimArray", "Axis", "Axes", "Grouped"):
                     if kind in MUTATORS[m][0]:
                         yield {"mut": m, "side": side, "kind": kind}
 
@@ -128,6 +129,13 @@ MUTATORS = {
     "attr_replace": (["DimArray", "Axis", "Dataset"], lambda o: setattr(o, "attrs", {"only": 1})),
     "axis_attr_set": (["DimArray", "Dataset"], lambda o: o.axes["x"].attrs.__setitem__("long", "changed")),
     "axis_attr_mutable": (["DimArray", "Dataset"], lambda o: o.axes["x"].attrs["lst"].append(2)),
+    # a flattened (grouped) axis keeps its member axes: they are labels and axis names of the array too
+    "member_label": (["Grouped"], lambda o: o.axes[0].axes[0].__setitem__(0, 99)),
+    "member_name": (["Grouped"], lambda o: setattr(o.axes[0].axes[1], "name", "w")),
+    "member_attr": (["Grouped"], lambda o: o.axes[0].axes[0].attrs.__setitem__("long", "changed")),
+    "grouped_cell": (["Grouped"], _cell),
+    "grouped_attr": (["Grouped"], lambda o: o.attrs["meta"]["k"].append(3)),
+    "unflatten_relabel": (["Grouped"], lambda o: o.unflatten().axes["x"].__setitem__(0, 99)),
     "ds_setitem": (["Dataset"], lambda o: o.__setitem__("new", DimArray(np.zeros(3), axes=[Axis(np.array([30, 10, 20]), "x")]))),
     "ds_delitem": (["Dataset"], lambda o: o.__delitem__("a")),
     "ds_var_cell": (["Dataset"], lambda o: _cell(o["a"])),
@@ -142,6 +150,8 @@ def _make(kind):
     a = D.build_impl(s)
     if kind == "DimArray":
         return a
+    if kind == "Grouped":
+        return a.flatten()
     if kind == "Axis":
         ax = a.axes["x"]
         ax.attrs["units"] = "m"
@@ -160,6 +170,10 @@ def _make(kind):
 def _snap(o):
     if isinstance(o, common.Axes):
         return tuple(common.axis_snap(ax) for ax in o)
+    if isinstance(o, DimArray) and any(hasattr(ax, "axes") for ax in o.axes):      # grouped axes: the member axes are part of the array
+        members = tuple(tuple(common.axis_snap(m) for m in ax.axes) for ax in o.axes if hasattr(ax, "axes"))
+        un = call(o.unflatten)
+        return (common.snap(o), members, common.snap(un) if not isinstance(un, Raised) else "unflatten-raises")
     return common.snap(o)
 
 
